@@ -4,7 +4,9 @@ NAME=$1; PROP=$2; TIER=${3:-quick}
 cd /verif
 git -C /repo diff --quiet || { echo "/repo not clean"; exit 2; }
 git -C /repo apply /verif/seeded/$NAME/patch.diff || exit 2
+cp evidence/$PROP.json /tmp/mut/evidence-$PROP.bak 2>/dev/null
 ./check $PROP $TIER > /tmp/mut/try-$NAME-$PROP.log 2>&1; rc=$?
+cp /tmp/mut/evidence-$PROP.bak evidence/$PROP.json 2>/dev/null
 git -C /repo checkout -- .
 echo "mutant=$NAME check=$PROP tier=$TIER exit=$rc"
 grep -E "VIOLATION|violation signature|verdict=|INCONCLUSIVE|BUILD-ERROR" /tmp/mut/try-$NAME-$PROP.log | head -8
